@@ -597,6 +597,40 @@ def consumer_monitor(trace, events, start, maxbuf):
     return None
 
 
+# ====================================================================== translator tie for afkak/_util.py (tie A)
+def translator_tie(ck):
+    """Props/C12gen.v (what the committed _util terms compute: obligations about committed files) and, per run,
+    source -> symbolic execution -> term -> equal to the committed term.  Returns the functions whose tie is NOT intact
+    (tie B, the correspondence, then gets a larger sample).  Never a violation by itself (two-ties rule)."""
+    import os
+    import py2util
+    import util_tie
+    ok, log = ck.make_soft("Props/C12gen.vo")
+    if not ok:
+        ck.cov["translator_tie"] = {"state": "unavailable: Props/C12gen.v does not build", "log": log[-800:]}
+        return set(py2util.FUNCTIONS)
+    ck.props("C12gen")
+    try:
+        r = util_tie.check(vlib.REPO)
+    except Exception as e:  # noqa
+        ck.cov["translator_tie"] = {"state": "unavailable: %r" % (e,)}
+        return set(py2util.FUNCTIONS)
+    intact = sorted(fn for fn, st in r["status"].items() if st == "intact")
+    ck.cov["translator_tie"] = {
+        "state": "intact for %d of %d functions of afkak/_util.py" % (len(intact), len(r["status"])),
+        "source": os.path.join(vlib.REPO, "afkak/_util.py"), "per_function": r["status"],
+        "dropped_by_translator": r["notes"], "scratch_dir": os.path.relpath(r["dir"], vlib.ROOT),
+        "cached_result": r.get("cached", False)}
+    ck.cov["obligations"] += len(intact)
+    ck.cov["discharged"] += len(intact)
+    ck.cov["theorems"] += [{"name": "gen_%s_is_ast (per run, %s)" % (fn, os.path.relpath(r["dir"], vlib.ROOT)),
+                            "axioms": [], "accepted": True} for fn in intact]
+    ck.cov["trusted_base"].append("translator harness/py2util.py (symbolic execution of afkak/_util.py: evaluation order, integers as Z, struct "
+                                  "formats as Prim.pack_list / per-field Prim.unpack, slices with non-negative bounds, encode/decode as the model's "
+                                  "ASCII/UTF-8 predicates, isinstance tests taken to hold, messages ignored, arithmetic normalised to linear forms)")
+    return {fn for fn in py2util.FUNCTIONS if r["status"].get(fn) != "intact"}
+
+
 def describe(c):
     return {"op": c[0], "line": c[:48]}
 
@@ -629,8 +663,13 @@ def run(ck):
         r.update(extra or {})
         ck.violation(r, no_input=no_input)
 
+    tie_down = translator_tie(ck)
     # ============================================================ 0. shared codec models still match the code
-    n, diffs, hist, _ = CL.selftest(ck, ck.seed, 1 if not thorough else 4)
+    # (two-ties rule: where the translator tie for _util.py is not intact the correspondence carries those functions
+    # alone and gets a four times larger sample)
+    if tie_down:
+        ck.hist("selftest_enlarged_because_translator_tie_is_down_for_%d_functions" % len(tie_down))
+    n, diffs, hist, _ = CL.selftest(ck, ck.seed, (1 if not thorough else 4) * (4 if tie_down else 1))
     ck.cov["correspondence"]["codec_lib.selftest: _util / struct / crc32 / message-set encoder+decoder vs Model.Prim/Crc/MsgSet"] = {
         "cases": n, "differences": len(diffs)}
     ck.cov["evaluations"] += n
